@@ -96,7 +96,9 @@ class Checker(object):
             lines.append("KNOWN-FINDING: property=%s rule=%s construct=%s :: %s"
                          % (self.pid, o["rule"], o["construct"], e.get("what_fails", o["detail"])))
         for o in viol:
-            rp = os.path.join(rdir, "%s_%s_%s.json" % (self.pid, o["rule"], _slug(o["construct"])))
+            import hashlib
+            digest = hashlib.sha1(o["construct"].encode("utf-8", "replace")).hexdigest()[:8]
+            rp = os.path.join(rdir, "%s_%s_%s_%s.json" % (self.pid, o["rule"], _slug(o["construct"])[:60], digest))
             with open(rp, "w") as f:
                 json.dump({"property": self.pid, "rule": o["rule"], "rule_text": self.rules[o["rule"]],
                            "construct": o["construct"], "where": o["where"], "detail": o["detail"],
